@@ -139,6 +139,9 @@ def fast_path_reserve(ctx, prog, pfx='C06'):
     f = prog.func('decode', 'retrieve')
     P = Prov(prog, f)
     names = reg_var_names(f)
+    from irdb import var_roles
+    roles = var_roles(f, P)
+    NEXT, LIMIT, W = roles.get('.data', 'next'), roles.get('.limit', 'limit'), roles.get('.live', 'w')
     dom = cfg.dominators(f)
     guards = []
     for b in f.blocks.values():
@@ -147,7 +150,7 @@ def fast_path_reserve(ctx, prog, pfx='C06'):
             continue
         e = P.expr(t.ops[0])
         lv = {names.get(x[1]) for x in P.leaves(e, expand_phi=False) if x[0] == 'phi'}
-        if not ({'limit', 'next'} <= lv):
+        if not ({LIMIT, NEXT} <= lv):
             continue
         c, pol = peel_cond(e)
         cn = cmp_norm(c)
@@ -173,7 +176,7 @@ def fast_path_reserve(ctx, prog, pfx='C06'):
             env = {}
             for x in leaves:
                 nm = names.get(x[1])
-                env[('phi', x[1])] = {'next': 0x1000, 'limit': 0x1000 + 4 * avail, 'w': w}.get(nm, 0)
+                env[('phi', x[1])] = {NEXT: 0x1000, LIMIT: 0x1000 + 4 * avail, W: w}.get(nm, 0)
             n += 1
             try:
                 v = bounds.eval_expr(e, env) & 1
